@@ -110,5 +110,5 @@ def run(ctx):
         "max_alloc_per_input_byte": max((ob.get("alloc", 0) / (ob["len"] + 1) for ob in obs), default=0),
         "memory_budget": "alloc <= %d*len + %d, time <= %d ms" % (MEM_A, MEM_B, MAX_MS),
     })
-    ctx.notes.append("memory: the model accounts allocations (al); Go's TotalAlloc delta must be <= 3*al + 256*len + 65536 in every case (validated from below); a linear bound is refuted (C02_refuted_amplification/_dimensions), no positive memory theorem is claimed")
+    ctx.notes.append("memory: the model accounts allocations (al); Go's TotalAlloc delta must be <= 3*al + 256*len + 524288 in every case (the constant covers reflect.SliceOf creating a new slice type once per process) (validated from below); a linear bound is refuted (C02_refuted_amplification/_dimensions), no positive memory theorem is claimed")
     ctx.conclude(proof_ok, corr_ok, new, detail)
